@@ -29,6 +29,17 @@ add("C08", "model_checking",
     "Trusted: the interval-intersection reference and the raw input frame built by the harness (the market's own copy is not consulted). Bar 0 is only bounded; with several positions only the 'never more' bound is demanded.",
     "DESIGN.md §5 C08")
 
+add("C03", "model_checking",
+    "explicit-state DFS over operation sequences (operation x argument class) on the real market objects at a frozen bar, net value by an independent exact reference valuation",
+    "Every world of the catalogue is explored from its seeded portfolios: all sequences within the depth/deviation bound of real public operations with argument classes {0, dust, part, all, all+, over, huge} resolved against the current state; on every transition, accepted or rejected, the change of the reference net value is bounded by the wallet dust, conserving operations conserve, swaps lose exactly the reported fee, and no holding is negative. Every explored trace is an implementation trace; dedup on the canonical raw state is budget-aware.",
+    "Trusted: the reference valuation (mc/worlds/adapters_*.py ref_value), generic snapshot/restore of vars(market) (violations are re-executed from a fresh world by --replay). Negative amounts and caller-chosen swap prices are outside the alphabet.",
+    "DESIGN.md §5 C03")
+add("C04", "model_checking",
+    "explicit-state DFS over operation sequences; fault enumeration over rejection causes; state-equality oracle plus one-step look-ahead differential",
+    "Same exploration as C03 with argument classes built to hit each precondition separately; on every rejected call the raw state (wallet, every market's position containers, visible order book, action log) must equal the state before, exactly; multi-step helpers are judged per completed constituent (spied on the instance and re-executed from the pre-state); after each rejection every default operation must behave exactly as it does without the rejection (exposes hidden state such as caches). The evidence lists every (operation, cause) pair reached.",
+    "Trusted: raw-state observers of the adapters; generic snapshot/restore. open_deposit_mint / burn_and_withdraw are judged as single transactions.",
+    "DESIGN.md §5 C04")
+
 _PENDING = "check not built yet in this round (planned: bounded exhaustive exploration, see DESIGN.md §5); listed here until its check is registered"
 for _i in range(1, 21):
     _p = f"C{_i:02d}"
